@@ -199,6 +199,13 @@ class Agent(dbus.service.Object):
             state = hdl.get_session_state()
             if state == 'established':
                 hdl.terminate()
+            elif state == 'session-negotiating':
+                # The peer may be established already, with a transfer of
+                # its own under way: terminate as soon as the session is up,
+                # and do not wait for that longer than for any silent peer
+                hdl.set_on_session_start(hdl.terminate)
+                if self._config.idle_time and self._config.idle_time > 0:
+                    glib.timeout_add(int(self._config.idle_time * 1e3), self._close_unless_session, hdl)
             elif state != 'ending':
                 # No session to terminate gracefully
                 hdl.close()
@@ -206,6 +213,13 @@ class Agent(dbus.service.Object):
             # Closing the last contact already stopped the agent
             return True
         self._logger.info('Waiting on sessions to terminate')
+        return False
+
+    def _close_unless_session(self, hdl):
+        ''' Give up on a contact which was still negotiating its session at shutdown.
+        '''
+        if hdl in self._handlers and hdl.get_session_state() == 'session-negotiating':
+            hdl.close()
         return False
 
     @dbus.service.method(DBUS_IFACE, in_signature='')
